@@ -5,4 +5,4 @@ From RC Require Import gen.C13Consts model.PatchStackC13.
 Extraction Language OCaml.
 Extraction "../build/ocaml/C13/model.ml" N.succ Z.succ Pos.succ Nat.add
   begin_patch end_patch patch_enter patch_exit set_attr del_attr get with_mods mset mdel mmem
-  analyse analyse_pyproject run_fops interleaved_outer content mutate two_pyproject.
+  analyse analyse_pyproject run_fops interleaved_outer content mutate two_pyproject fallback_dir.
